@@ -124,9 +124,13 @@ class Decimal(SimpleModel):
             kwargs.pop('max_str_len', None)
 
         elif msl is None:
-            kwargs['max_str_len'] = cls.Attributes.total_digits + 2
+            # the digits that are being asked for, and not those of the type
+            # that is being customized.
+            kwargs['max_str_len'] = td + 3
             # + 1 for decimal separator
             # + 1 for negative sign
+            # + 1 for the zero before the separator when there are as many
+            #     fraction digits as digits
 
         else:
             kwargs['max_str_len'] = msl
